@@ -286,3 +286,61 @@ func VerifNewFirewallFromConfig(my VerifFwCert, c *config.C) (v *VerifFw, ok boo
 	}
 	return &VerifFw{fw: fw, myNets: t, pool: cert.NewCAPool()}, true, false
 }
+
+// ---- C17: firewall reload ---------------------------------------------------------------------------
+
+// VerifFwReloader is the minimal Interface the real Interface.reloadFirewall needs: the PKI holding the current
+// certificate state, the firewall, a logger; plus the config object that is reloaded.
+type VerifFwReloader struct {
+	f        *Interface
+	cfg      *config.C
+	startVer uint16
+}
+
+// StartVersion is the rulesVersion the history started with.
+func (r *VerifFwReloader) StartVersion() uint16 { return r.startVer }
+
+func verifFwCertState(my VerifFwCert) *CertState {
+	return &CertState{v2Cert: &verifFwCert{c: my}, initiatingVersion: cert.Version2}
+}
+
+// VerifNewFwReloader builds the initial firewall with the real NewFirewallFromConfig.
+func VerifNewFwReloader(my VerifFwCert, yaml string) (*VerifFwReloader, error) {
+	cfg := config.NewC(verifFwLogger)
+	if err := cfg.LoadString(yaml); err != nil {
+		return nil, err
+	}
+	pki := &PKI{}
+	pki.cs.Store(verifFwCertState(my))
+	fw, err := NewFirewallFromConfig(verifFwLogger, pki.getCertState(), cfg)
+	if err != nil {
+		return nil, err
+	}
+	return &VerifFwReloader{f: &Interface{pki: pki, firewall: fw, l: verifFwLogger}, cfg: cfg}, nil
+}
+
+// Reload installs a re-issued certificate and reloads the configuration text, then calls the real reloadFirewall.
+// Returns whether the config machinery reported a change of the firewall section (an input of the decision, not
+// under test here) and whether the firewall object was replaced.
+func (r *VerifFwReloader) Reload(my VerifFwCert, yaml string) (cfgChanged, rebuilt bool, err error) {
+	r.f.pki.cs.Store(verifFwCertState(my))
+	if err = r.cfg.ReloadConfigString(yaml); err != nil {
+		return
+	}
+	cfgChanged = r.cfg.HasChanged("firewall")
+	old := r.f.firewall
+	r.f.reloadFirewall(r.cfg)
+	return cfgChanged, r.f.firewall != old, nil
+}
+
+// Fw returns a handle on the CURRENT firewall (for NewPeer / Drop / Tracked); my = the current certificate.
+func (r *VerifFwReloader) Fw(my VerifFwCert) *VerifFw {
+	t := new(bart.Lite)
+	for _, n := range my.Networks {
+		t.Insert(n)
+	}
+	return &VerifFw{fw: r.f.firewall, myNets: t, pool: cert.NewCAPool()}
+}
+
+// SetRulesVersion lets a history start close to the uint16 wrap of Firewall.rulesVersion.
+func (r *VerifFwReloader) SetRulesVersion(v uint16) { r.f.firewall.rulesVersion = v; r.startVer = v }
